@@ -623,6 +623,28 @@ for _text_limit in ("maxstring", "maxother"):
             and len(name) > len(private) + 1
 """),
     ],
+    "mutants/c07_fix_last_operand_not_truth_tested_reverted": [
+        ("icontract/_recompute.py", """            if i == len(node.values) - 1:
+                # The last operand is the result whatever it is. Python does not ask for its truth value,
+                # and there might be none (*e.g.*, ``flag and an_array > 0``).
+                break
+
+""", ""),
+    ],
+    "mutants/c19_fix_async_condition_in_disguise_reverted": [
+        ("icontract/_decorators.py", "            or inspect.isasyncgenfunction(condition)\n", ""),
+    ],
+    "mutants/c19_async_inv_accepted_unless_call": [
+        ("icontract/_decorators.py", """                    or inspect.isasyncgenfunction(getattr(condition, "__call__", None))
+                )
+            )
+        ):
+""", """                    or inspect.isasyncgenfunction(getattr(condition, "__call__", None))
+                )
+            )
+        ) and check_on == InvariantCheckEvent.CALL:
+"""),
+    ],
     "mutants/c14_fix_unreadable_class_attribute_reverted": [
         (CHK, """        try:
             value = getattr(cls, name)
